@@ -403,7 +403,9 @@ class Client(Peer):
        ('shutdown_wr',) ('close',) ('stop_reading',) ('wait_time', t)
     """
 
-    def __init__(self, world, idx, script, start_turn=0, read_limit=None):
+    def __init__(self, world, idx, script, start_turn=0, read_limit=None, send_on_connect=None, preclose=False):
+        self.send_on_connect = send_on_connect
+        self.preclose = preclose
         self.idx = idx
         self.script = list(script)
         self.pc = 0
@@ -430,6 +432,12 @@ class Client(Peer):
         self.sut_sock = b
         self.w.register_sut(b, self.name)
         self.w.log(self.name, 'connect')
+        if self.send_on_connect:
+            # bytes that are already in flight when the proxy accepts (needed where the SUT does a
+            # blocking read during initialisation, e.g. the TLS front handshake)
+            self._send(self.send_on_connect)
+        if self.preclose:
+            self.do_action(('shutdown_wr',))
         self.w.introduce(self, b)
 
     def done(self):
@@ -840,6 +848,11 @@ class WorldImpl(World):
         return d
 
     def sut_shutdown(self, sock, role, how):
+        if 'F' in self.kinds and self.fault_ok(role):
+            # e.g. ENOTCONN after the peer reset a TCP connection
+            if self.choose('F', 2, ('shutdown', role)):
+                self.log(role, 'sut_shutdown_err', errno.ENOTCONN)
+                raise OSError(errno.ENOTCONN, os.strerror(errno.ENOTCONN))
         self.log(role, 'sut_shutdown', how)
         return _c_shutdown(sock, how)
 
@@ -976,7 +989,8 @@ class WorldImpl(World):
             if scn.setup:
                 scn.setup(self)
             for i, c in enumerate(scn.clients):
-                self.clients.append(Client(self, i, c['script'], c.get('start_turn', 0), c.get('read_limit')))
+                self.clients.append(Client(self, i, c['script'], c.get('start_turn', 0), c.get('read_limit'),
+                                           c.get('send_on_connect'), c.get('preclose', False)))
             self.in_env = False
             try:
                 self._run_mode()
